@@ -417,7 +417,14 @@ class Gen:
         return [t]
 
     def sequence(self, g, length, malformed=False):
-        return [self.op(g, malformed) for _ in range(length)]
+        ops = [self.op(g, malformed) for _ in range(length)]
+        if not malformed and g["shape"] and self.rng.random() < 0.3:
+            # overwrite an element between two persists: the second persist must write the new value
+            # (a persist that is skipped because the element count did not change would reopen the old one)
+            key = [self.rng.randrange(d) for d in g["shape"]]
+            ops += [["dump", key, self.value(g)], ["persist_reopen"], ["dump", key, self.value(g)], ["persist_reopen"],
+                    ["to_array", None], ["mask_linear"]]
+        return ops
 
 
 def sweep_entries(n):
